@@ -52,6 +52,9 @@ def cases_(draw):
     elif draw(st.integers(0, 3)) == 0:
         # a later step of the same flow stops reading every resource after its first row
         c['then_head'] = True
+    # the hash counter may be switched off; the incoming descriptor may carry the counters of an earlier dump
+    c['no_hash'] = draw(st.integers(0, 4)) == 0
+    c['stale'] = draw(st.integers(0, 4)) == 0
     if draw(st.integers(0, 5)) == 0:
         o = {}
         gen_dump.per_resource_formats(draw, pkg, o)     # force_format=False: the format each path names
@@ -61,6 +64,9 @@ def cases_(draw):
 
 def cases(tier):
     return cases_()
+
+
+NO_HASH = [False]
 
 
 def inspect(out):
@@ -85,7 +91,7 @@ def inspect(out):
             return ('descriptor-size-differs-from-file', {'path': r['path'], 'recorded': r['bytes'], 'actual': len(raw)})
         if 'hash' in r and r['hash'] != hashlib.md5(raw).hexdigest():
             return ('descriptor-hash-differs-from-file', {'path': r['path']})
-        if 'bytes' not in r or 'hash' not in r:
+        if 'bytes' not in r or ('hash' not in r and not NO_HASH[0]):
             return ('descriptor-without-size-or-hash', {'path': r['path']})
     return None
 
@@ -93,12 +99,19 @@ def inspect(out):
 def check(case, ctx):
     pkg = case['pkg']
     desc = gen.descriptor_of(pkg)
+    NO_HASH[0] = bool(case.get('no_hash'))
+    if case.get('stale'):
+        desc.update({'count_of_rows': 1234, 'bytes': 99999, 'hash': 'f' * 32})
+        for rd in desc['resources']:
+            rd.update({'count_of_rows': 77, 'bytes': 4242} if case.get('no_hash') else {'count_of_rows': 77, 'bytes': 4242, 'hash': 'e' * 32})
     tables = gen.tables_of(pkg)
     root = ctx.tmpdir()
 
     def make(out):
         def fn():
             kw = {}
+            if case.get('no_hash'):
+                kw['counters'] = {'resource-hash': None}
             if case.get('force_format') is False:
                 kw['force_format'] = False
             elif case['format'] != 'csv':
